@@ -300,6 +300,10 @@ class ISD(model.Document):
         )
       default_region_has_background = ISD._region_always_has_background(default_region)
 
+      if default_region_has_background:
+        # the painted default region appears at the start of the document timeline
+        s_times.add(Fraction(0))
+
     cache = []
 
     for cached_doc in single_regions_docs:
